@@ -97,6 +97,9 @@ TABLE = [
      "read() keeps pulling from the reader after the last frame when the file is a container: boxes may follow the codestream"),
     (("C11", "C05"), "jxl_render::RenderContext::render_loading_frame", "reads", "frame_deps", "D60",
      "a frame that is already complete is rendered with the reference / LF slots recorded when it was loaded, not with the current ones"),
+    (("C03",), "jxl_modular::image::decode_simple_table_slow", "compare", "table.decision_prop == 15", "seed-C03m",
+     "a lookup table on property 15 (the weighted predictor's max error) needs the weighted-predictor state whatever predictor its leaves "
+     "use: without the header the property reads 0 for every sample and the wrong leaf is taken"),
     (("C06",), "jxl_render::util::image_region_to_frame", "reads", "frame_type", "seed-C06h",
      "a ReferenceOnly frame is a patch / blending source whatever its save_before_ct bit says (the bit is only defaulted to true when "
      "absent), and reset_cache keeps its render handle across region changes: it has to be rendered in full"),
